@@ -16,17 +16,18 @@ PROPS = ["C%02d" % i for i in range(1, 21)]
 
 
 class Ctx(object):
-    def __init__(self, run, root, tier, seed):
+    def __init__(self, run, root, tier, seed, overlay=None, prog=None):
         self.run = run
         self.root = root
         self.tier = tier
         self.seed = seed
-        self._prog = None
+        self.overlay = overlay
+        self._prog = prog
 
     @property
     def prog(self):
         if self._prog is None:
-            self._prog = load_program(self.root)
+            self._prog = load_program(self.root, self.overlay)
         return self._prog
 
     def spec(self, name):
@@ -38,13 +39,18 @@ class Ctx(object):
             raise AnalysisError("spec oracle %s unreadable: %s" % (name, e))
 
 
-def run_property(prop, root="/repo", tier="quick", seed=0, only_construct=None, write=True, quiet=False):
+def run_property(prop, root="/repo", tier="quick", seed=0, only_construct=None, write=True, quiet=False, overlay=None,
+                 canaries=True):
     run = Run(prop, tier=tier, seed=seed, root=root, only_construct=only_construct, quiet=quiet)
-    ctx = Ctx(run, root, tier, seed)
+    ctx = Ctx(run, root, tier, seed, overlay=overlay)
     mod = importlib.import_module("sa.rules.%s" % prop)
     mod.run(ctx)
-    if tier == "thorough" and hasattr(mod, "thorough"):
-        mod.thorough(ctx)
+    if canaries and overlay is None:
+        from selftest import canaries as cn
+        cn.run_canaries(prop, ctx)
+    if tier == "thorough" and overlay is None:
+        from selftest import thorough as th
+        th.run_thorough(prop, ctx)
     rc = run.finish(write=write)
     return rc, run
 
